@@ -82,4 +82,6 @@ def enum_with_null_equals_union(literal: bool, required: bool, with_default: boo
     if da[0] == "error" or db[0] == "error":
         return False
     # null is not a member: the union has a None branch and an enum branch with exactly the two values
+    if da[6] != db[6] or (with_default and da[6] is None):
+        return False  # the declared default survives the rewrite, identically in both notations
     return da[0] == db[0] == "UnionProperty" and da[1] == db[1] and da[2] == db[2] and da[3] == db[3] and "None" in da[1]
